@@ -1,7 +1,9 @@
 (* C19 - derived networks (theorems are added from Proofs/DerivedProofs.v). *)
 From Coq Require Import String ZArith List Bool.
 From XV Require Import Base.Label Base.LSet Base.ODict Base.Attr Base.Outcome Model.Hypergraph
-  Model.HgCheck Model.Copy Model.Derived Proofs.HgViews Proofs.HgInv Proofs.Build Proofs.DerivedProofs.
+  Model.HgCheck Model.Copy Model.Derived Proofs.HgViews Proofs.HgInv Proofs.HgStep Proofs.Build Proofs.DerivedProofs
+  Proofs.NoNoneProofs Proofs.DualProofs Proofs.UnionProofs Proofs.ComplementProofs Proofs.MaxSimplicesProofs
+  Model.Stats Model.Graph Proofs.GraphProofs Proofs.LccProofs.
 Import ListNotations.
 Open Scope Z_scope.
 
@@ -36,6 +38,83 @@ Theorem C19_build_edges : forall L a s, Inv s -> fresh_items s L ->
   h_net t = h_net s.
 Proof. exact build_edges_effect. Qed.
 Print Assumptions C19_build_edges.
+
+(* the dual exchanges nodes and edges and transposes the incidence relation *)
+Theorem C19_dual_spec : forall nhint s, Inv s -> NoNone s ->
+  let r := dual nhint s in
+  let t := st_of r in
+  Proofs.HgErrors.out_of r = Ok /\ Inv t /\ NoNone t /\
+  ekeys t = nkeys s /\ (forall x, In x (nkeys t) <-> In x (ekeys s)) /\
+  (forall n e, In e (mems t n) <-> In n (mems s e)) /\
+  h_net t = h_net s.
+Proof. exact dual_spec. Qed.
+Print Assumptions C19_dual_spec.
+
+(* ... and is an involution: dual(dual(H)) has the nodes, edges, incidences and network attributes of H *)
+Theorem C19_dual_involution : forall h1 h2 s, Inv s -> NoNone s ->
+  let t := st_of (dual h2 (st_of (dual h1 s))) in
+  (forall x, In x (nkeys t) <-> In x (nkeys s)) /\ (forall y, In y (ekeys t) <-> In y (ekeys s)) /\
+  (forall n e, In n (mems t e) <-> In n (mems s e)) /\ h_net t = h_net s.
+Proof. exact dual_involution. Qed.
+Print Assumptions C19_dual_involution.
+
+(* H1 << H2: the edges of H1 followed by those of H2 (renumbered 0, 1, ...) over the union of the nodes *)
+Theorem C19_union_spec : forall s1 s2, Inv s1 -> Inv s2 -> NoNone s1 -> NoNone s2 ->
+  let r := lshift s1 s2 in
+  let t := st_of r in
+  let E := map snd (h_edge s1) ++ map snd (h_edge s2) in
+  Proofs.HgErrors.out_of r = Ok /\ Inv t /\
+  ekeys t = map (fun j => LInt (Z.of_nat j)) (seq 0 (length E)) /\
+  (forall j, (j < length E)%nat -> seteq (mems t (LInt (Z.of_nat j))) (nth j E [])) /\
+  (forall x, In x (nkeys t) <-> In x (nkeys s1) \/ In x (nkeys s2)).
+Proof. exact lshift_spec. Qed.
+Print Assumptions C19_union_spec.
+
+(* complement: exactly the absent node sets of 1 .. max size nodes *)
+Theorem C19_complement_sound : forall s c, NoDup (keys (h_node s)) -> In c (complement_sets s) ->
+  (1 <= length c <= comp_bound s)%nat /\ NoDup c /\ (forall x, In x c -> In x (keys (h_node s))) /\ ~ present s c.
+Proof. exact complement_sound. Qed.
+Print Assumptions C19_complement_sound.
+
+Theorem C19_complement_complete : forall s f,
+  NoDup f -> (forall x, In x f -> In x (keys (h_node s))) -> (1 <= length f <= comp_bound s)%nat -> ~ present s f ->
+  exists c, In c (complement_sets s) /\ seteq c f.
+Proof. exact complement_complete. Qed.
+Print Assumptions C19_complement_complete.
+
+(* from_max_simplices keeps every node and exactly the maximal simplices *)
+Theorem C19_from_max_simplices : forall s, Inv s -> NoNone s ->
+  let r := from_max_simplices s in
+  let t := st_of r in
+  let mx := maximal_ids s in
+  Proofs.HgErrors.out_of r = Ok /\ Inv t /\
+  (forall x, In x (nkeys t) <-> In x (nkeys s)) /\
+  ekeys t = map (fun j => LInt (Z.of_nat j)) (seq 0 (length mx)) /\
+  (forall j, (j < length mx)%nat -> seteq (mems t (LInt (Z.of_nat j))) (mems s (nth j mx LNone))).
+Proof. exact from_max_simplices_spec. Qed.
+Print Assumptions C19_from_max_simplices.
+
+Theorem C19_maximal_ids : forall s e,
+  In e (maximal_ids s) <->
+  exists ms, In (e, ms) (h_edge s) /\ forall e' ms', In (e', ms') (h_edge s) -> e' = e \/ ~ (forall x, In x ms -> In x ms').
+Proof. exact maximal_ids_spec. Qed.
+Print Assumptions C19_maximal_ids.
+
+(* largest_connected_hypergraph(in_place=True) / cleanup(connected=True): the nodes that remain are
+   exactly one reachability class, and no component is larger *)
+Theorem C19_largest_component_inplace : forall s c, Inv s -> first_longest (Hypergraph.components s) = Some c ->
+  exists v, In v (nkeys s) /\ (forall x, In x c <-> Reach s v x) /\
+            (forall c', In c' (Hypergraph.components s) -> (length c' <= length c)%nat) /\
+            forall x, In x (nkeys (st_of (largest_connected_inplace s))) <-> Reach s v x.
+Proof. exact lcc_inplace_spec. Qed.
+Print Assumptions C19_largest_component_inplace.
+
+(* the premises Inv and NoNone hold at every state reachable by an admissible, expressible history *)
+Theorem C19_premises_reachable : forall ops,
+  admissible_history hg_empty ops -> expressible_history ops ->
+  Inv (run ops hg_empty) /\ NoNone (run ops hg_empty).
+Proof. intros ops A E. apply run_NoNone; [exact A|exact E|apply Inv_empty|apply NoNone_empty]. Qed.
+Print Assumptions C19_premises_reachable.
 
 Example C19_nonvacuous :
   let s := run [OAddEdgesFrom (EB1 [[LInt 1; LInt 2; LInt 3]; [LInt 3; LInt 4]; [LInt 5]]) []; OAddNode (LInt 9) []] hg_empty in
